@@ -943,12 +943,14 @@ def occupancy_gaps_of(names, ncells, cap, can):
         # replace v by its definition  v == sum w_i u_i + k  (w_i >= 0)
         gv2, gk2 = dict(gv), gk
         for v in list(gv):
+            if any(co.get(v, 0) > 0 and all(q >= 0 for q in co.values()) for co, k in les):
+                continue                        # bounded through an inequality of its own
             for co, k in eqs:
                 q = co.get(v)
                 if q is None or q == 0:
                     continue
                 rest = {u: -w / q for u, w in co.items() if u != v}
-                if all(w >= 0 for w in rest.values()):
+                if all(w >= 0 for w in rest.values()) and all(u[0] == "a" and u[2] == c for u in rest):
                     mult = gv2.pop(v)
                     for u, w in rest.items():
                         gv2[u] = gv2.get(u, 0) + mult * w
